@@ -58,6 +58,22 @@ class _StubGmsh:
                     return np.array(ranks, dtype=int)
         return np.array([], dtype=int)
 
+    def getDimension(self):
+        return max(d for d, _ in self.plan.values())
+
+    def getElementTypes(self):
+        return np.array(list(self.plan), dtype=int)
+
+    def getElements(self, dim):
+        tags = [np.array([e for _, _, els in ents for e in els], dtype=int) for gid, (d, ents) in self.plan.items() if d == dim]
+        return ([], tags, [])
+
+    def partition(self, N):
+        self.partitioned = N
+
+    def getPhysicalGroups(self, dim):
+        return []
+
     def getElementsByType(self, gmshId, tag=-1):
         for t, _, els in self.plan[gmshId][1]:
             if t == tag:
@@ -69,21 +85,35 @@ class _Rec:
     def __init__(self, gmshId, connect, coordinates):
         self.gmshId, self.connect, self.coordinates = gmshId, np.array(connect), coordinates
         self.data = None
+        self.elemType = f"T{gmshId}"
+        self.dim = _Factory.DIMS.get(gmshId, 0)
+
+    def Set_Tag(self, nodes, name):
+        pass
 
     def _Set_partitioned_data(self, elements, nodes, rank, ghost):
         self.data = (np.array(elements, dtype=int), np.array(nodes, dtype=int), int(rank), np.array(ghost, dtype=int))
 
 
 class _Factory:
+    DIMS = {}
+
     @staticmethod
     def _Create(gmshId, connect, coordinates):
         return _Rec(gmshId, connect, coordinates)
+
+    @staticmethod
+    def Get_ElemInFos(gmshId):
+        return (f"T{gmshId}",)
 
 
 SMALL = {
     "chain5": dict(types=[(1, 1, [[0, 1], [1, 2], [2, 3], [3, 4], [4, 5]])]),
     "quad2x2": dict(types=[(3, 2, [[0, 1, 4, 3], [1, 2, 5, 4], [3, 4, 7, 6], [4, 5, 8, 7]])]),
     "fan6": dict(types=[(2, 2, [[0, 1, 2], [0, 2, 3], [0, 3, 4], [0, 4, 5], [0, 5, 6], [0, 6, 1]])]),
+    # a mesh MIXING two element types of the main dimension (triangles are processed before the quadrangle, as gmsh orders the types)
+    "tri2+quad1": dict(types=[(2, 2, [[1, 2, 4], [2, 5, 4]]), (3, 2, [[0, 1, 4, 3]])], mixed=True),
+    "tri3+quad2": dict(types=[(2, 2, [[2, 3, 6], [3, 7, 6], [6, 7, 10]]), (3, 2, [[0, 1, 5, 4], [1, 2, 6, 5]])], mixed=True),
     # two element types sharing the node-ownership dictionary: boundary segments first, then triangles (the order gmsh returns the types in)
     "tri4+seg4": dict(types=[(1, 1, [[0, 1], [1, 2], [2, 3], [3, 0]]), (2, 2, [[0, 1, 4], [1, 2, 4], [2, 3, 4], [3, 0, 4]])]),
 }
@@ -117,8 +147,6 @@ def _check_rank_groups(name, gid, connect, assign, Nproc, groups, nodes_before, 
         elem_nodes = set(connect[sorted(own[r])].ravel().tolist()) if own[r] else set()
         if not all_nodes[r] <= elem_nodes:
             raise Refuted(f"{name}: rank {r} owns node(s) {sorted(all_nodes[r] - elem_nodes)} of no element it owns", cex=dict(assign=list(assign)), signature="algo:nodes:foreign", replay=_replay_gmsh())
-    if (union | prev_any) >= used is False or not used <= (union | prev_any):
-        raise Refuted(f"{name}: node(s) {sorted(used - union - prev_any)} have no owner", cex=dict(assign=list(assign)), signature="algo:nodes:orphan", replay=_replay_gmsh())
     return n
 
 
@@ -128,23 +156,33 @@ def _ghost_spec(connect, own_r, nodes_r):
 
 
 def ob_algo(name, Nproc):
+    """the whole partition pipeline (`__Get_dict_groupElems` -> `__Get_rank_elements`, node claiming, `__Get_partitioned_groupElems`) extracted from the AST and run on the stub model."""
     spec = SMALL[name]
     g = sx.module_globals("EasyFEA.FEM._mesher")
-    fn = extract.get(MSH, "Mesher.__Get_partitioned_groupElems")
+    fn_all = extract.get(MSH, "Mesher.__Get_dict_groupElems")
+    fn_rank = extract.get(MSH, "Mesher.__Get_rank_elements")
+    fn_part = extract.get(MSH, "Mesher.__Get_partitioned_groupElems")
     nsub = 0
     types = spec["types"]
-    main_gid, main_dim, main_connect = types[-1]
+    main_dim = max(d for _, d, _ in types)
+    mains = [(gid, c) for gid, d, c in types if d == main_dim]
+    nmain = sum(len(c) for _, c in mains)
     coordinates = np.zeros((20, 3))
-    for assign_main in itertools.product(range(Nproc), repeat=len(main_connect)):
-        plan, assigns = {}, {}
+    _Factory.DIMS = {gid: d for gid, d, _ in types}
+    for assign_main in itertools.product(range(Nproc), repeat=nmain):
+        plan, assigns, off = {}, {}, 0
+        main_assign = {}
+        for gid, c in mains:
+            main_assign[gid] = list(assign_main[off:off + len(c)])
+            off += len(c)
         for gid, dim, connect in types:
-            if gid == main_gid:
-                assign = list(assign_main)
+            if dim == main_dim:
+                assign = main_assign[gid]
             else:
-                # lower-dimensional elements follow one adjacent main element (as gmsh's boundary entities do): the first main element containing both nodes
+                # lower-dimensional elements follow one adjacent main element (as gmsh's boundary entities do)
                 assign = []
                 for seg in connect:
-                    owners = [assign_main[e] for e, c in enumerate(main_connect) if set(seg) <= set(c)]
+                    owners = [main_assign[mg][e] for mg, mc in mains for e, c in enumerate(mc) if set(seg) <= set(c)]
                     assign.append(owners[0] if owners else 0)
             assigns[gid] = assign
             ents = []
@@ -158,42 +196,69 @@ def ob_algo(name, Nproc):
         for rep in range(2):
             stub = _StubGmsh(plan)
             gg = dict(g, gmsh=stub, GroupElemFactory=_Factory)
-            f = extract.compile_fn(fn, gg, exact=False)
-            dict_rank_nodes = {r: set() for r in range(Nproc)}
-            out = {}
-            for gid, dim, connect in types:
-                before = [set(s) for s in dict_rank_nodes.values()]
-                groups = f(sx.Mock("self"), gid, np.array(connect), np.arange(len(connect)), coordinates, dict_rank_nodes)
-                if len(groups) != Nproc:
-                    raise Refuted(f"{name}: {len(groups)} parts for {Nproc} ranks", signature="algo:count", replay=_replay_gmsh())
-                nsub += _check_rank_groups(name, gid, connect, assigns[gid], Nproc, groups, before, coordinates)
-                out[gid] = groups
-                # ghost layer and content of the part, against the node ownership AFTER this call (what _Set_partitioned_data received)
-                for r, grp in enumerate(groups):
-                    el, nodes, rank, ghost = grp.data
-                    want = _ghost_spec(connect, set(el.tolist()), set(nodes.tolist()))
-                    nsub += 1
-                    if set(ghost.tolist()) != want:
-                        raise Refuted(f"{name} (type {gid}): ghost elements of rank {r} are {sorted(ghost.tolist())}, the elements owned elsewhere touching a node it owns are {sorted(want)}: "
-                                      f"a system assembled on this part is not row-complete", cex=dict(assign=assigns[gid], rank=r), signature="algo:ghost", replay=_replay_gmsh())
-                    full = sorted(set(el.tolist()) | want)
-                    if not np.array_equal(np.asarray(grp.connect).reshape(len(full), np.array(connect).shape[1]), np.array(connect)[full].reshape(len(full), np.array(connect).shape[1])):
-                        raise Refuted(f"{name} (type {gid}): part {r} does not hold exactly its owned + ghost elements in global order", cex=dict(assign=assigns[gid], rank=r), signature="algo:content",
-                                      replay=_replay_gmsh())
-            # every used node has exactly one owner over the whole call sequence
+            f_all = extract.compile_fn(fn_all, gg, exact=False)
+            f_rank = extract.compile_fn(fn_rank, gg, exact=False)
+            f_part = extract.compile_fn(fn_part, gg, exact=False)
+            conn = {gid: np.array(c) for gid, _, c in types}
+            me = sx.Mock("self", _Mesher__verbosity=False,
+                         _Mesher__Get_coordinates_and_changes=lambda: (coordinates, np.arange(20)),
+                         _Mesher__Get_connect=lambda gid, changes: (conn[gid], np.arange(len(conn[gid]))))
+            object.__setattr__(me, "_Mesher__Get_rank_elements", lambda *a: f_rank(me, *a))
+            object.__setattr__(me, "_Mesher__Get_partitioned_groupElems", lambda *a: f_part(me, *a))
+            parts = f_all(me, Nproc, 1)
+            if len(parts) != Nproc:
+                raise Refuted(f"{name}: {len(parts)} parts for {Nproc} ranks", signature="algo:count", replay=_replay_gmsh())
+            # node ownership over every element type: union of the groups' non-ghost nodes
+            owned = [set() for _ in range(Nproc)]
+            for r in range(Nproc):
+                for gid, _, _ in types:
+                    owned[r] |= set(parts[r][f"T{gid}"].data[1].tolist())
             allused = set().union(*[set(np.array(c).ravel().tolist()) for _, _, c in types])
             owners = {}
-            for r, s in dict_rank_nodes.items():
-                for nd in s:
+            for r, sset in enumerate(owned):
+                for nd in sset:
                     owners.setdefault(nd, []).append(r)
             nsub += 1
             if set(owners) != allused or any(len(v) != 1 for v in owners.values()):
                 bad = sorted(allused - set(owners)) + sorted(k for k, v in owners.items() if len(v) != 1)
-                raise Refuted(f"{name}: node(s) {bad} are owned by no rank or by several ranks after all element types", cex=dict(assign=list(assign_main)), signature="algo:nodes:global", replay=_replay_gmsh())
-            results.append({gid: [tuple(map(tuple, (np.sort(x.data[0]), np.sort(x.data[1]), np.sort(x.data[3])))) for x in grps] for gid, grps in out.items()})
+                raise Refuted(f"{name}: node(s) {bad} are owned by no rank or by several ranks", cex=dict(assign=list(assign_main)), signature="algo:nodes:global", replay=_replay_gmsh())
+            for gid, dim, connect in types:
+                groups = [parts[r][f"T{gid}"] for r in range(Nproc)]
+                nsub += _check_rank_groups(name, gid, connect, assigns[gid], Nproc, groups, [], coordinates)
+                for r, grp in enumerate(groups):
+                    el, nodes, rank, ghost = grp.data
+                    # a group's non-ghost nodes: the nodes of its owned elements that the rank owns
+                    cn = set(np.array(connect)[sorted(el.tolist())].ravel().tolist()) if len(el) else set()
+                    nsub += 1
+                    if set(nodes.tolist()) != cn & owned[r]:
+                        raise Refuted(f"{name} (type {gid}): non-ghost nodes of part {r} are {sorted(nodes.tolist())}, its owned elements' nodes owned by the rank are {sorted(cn & owned[r])}",
+                                      cex=dict(assign=assigns[gid], rank=r), signature="algo:nodes:group", replay=_replay_gmsh())
+                    # ghost layer against the rank's ownership over ALL element types (rows of an owned node need every element touching it)
+                    want = _ghost_spec(connect, set(el.tolist()), owned[r])
+                    nsub += 1
+                    if dim == main_dim and set(ghost.tolist()) != want:
+                        raise Refuted(f"{name} (type {gid}): ghost elements of rank {r} are {sorted(ghost.tolist())}, the elements owned elsewhere touching a node it owns are {sorted(want)}: "
+                                      f"a system assembled on this part is not row-complete", cex=dict(assign=assigns[gid], rank=r), signature="algo:ghost", replay=_replay_mixed())
+                    full = sorted(set(el.tolist()) | set(ghost.tolist()))
+                    nc = np.array(connect).shape[1]
+                    if not np.array_equal(np.asarray(grp.connect).reshape(len(full), nc), np.array(connect)[full].reshape(len(full), nc)):
+                        raise Refuted(f"{name} (type {gid}): part {r} does not hold exactly its owned + ghost elements in global order", cex=dict(assign=assigns[gid], rank=r), signature="algo:content",
+                                      replay=_replay_gmsh())
+            results.append({gid: [tuple(map(tuple, (np.sort(parts[r][f"T{gid}"].data[0]), np.sort(parts[r][f"T{gid}"].data[1]), np.sort(parts[r][f"T{gid}"].data[3])))) for r in range(Nproc)] for gid, _, _ in types})
         if results[0] != results[1]:
             raise Refuted(f"{name}: two runs on the same input give different partitions", signature="algo:reproducible", replay=_replay_gmsh())
-    return Verdict(DISCHARGED, backend=f"extracted algorithm on a stub gmsh model, exhaustive over the {Nproc}^{len(main_connect)} assignments", sub=nsub)
+    return Verdict(DISCHARGED, backend=f"extracted partition pipeline on a stub gmsh model, exhaustive over the {Nproc}^{nmain} assignments", sub=nsub)
+
+
+def _replay_mixed():
+    """native: a gmsh mesh mixing QUAD8 and TRI6, 5 parts: ghost layer vs global node ownership, and K rows."""
+    try:
+        import contextlib, io
+        with contextlib.redirect_stdout(io.StringIO()):
+            out, _, _ = _native_partition("QUAD8", 5, 2.5)
+        return dict(confirmed=bool(out), violations=out[:3])
+    except Exception as e:
+        return dict(confirmed=False, raised=repr(e)[:300])
 
 
 def ob_lemma_rows():
@@ -230,6 +295,9 @@ def _meshes(kind, Nproc, size=2.5):
         dom = Domain(Point(), Point(10, 6), size)
         if kind in ("TRI3", "TRI6", "QUAD4", "QUAD8"):
             return Mesher().Mesh_2D(dom, [], ElemType[kind])
+        if kind == "QUAD8+TRI6":
+            # at this size gmsh's recombination leaves triangles: a mesh that really mixes two element types of the main dimension
+            return Mesher().Mesh_2D(Domain(Point(), Point(10, 6), 2.5), [], ElemType.QUAD8)
         if kind == "TRI3.hole":
             return Mesher().Mesh_2D(dom, [Circle(Point(5, 3), 2.0, size / 2)], ElemType.TRI3)
         if kind == "mixed":
@@ -274,7 +342,8 @@ def _native_partition(kind, Nproc, size=2.5):
                 if not np.array_equal(np.asarray(g._globalElements), rows):
                     out.append(f"{et} part {r}: _globalElements differs from owned + ghost")
                 if dim == glob.dim:
-                    want = {e for e in range(gg.Ne) if e not in set(el.tolist()) and set(np.asarray(gg.connect)[e].tolist()) & set(nodes.tolist())}
+                    owned_r = set(np.asarray(m._Get_mpi_owned_nodes()).tolist())           # every node the rank owns, whatever the element type that claimed it
+                    want = {e for e in range(gg.Ne) if e not in set(el.tolist()) and set(np.asarray(gg.connect)[e].tolist()) & owned_r}
                     if set(gh.tolist()) != want:
                         out.append(f"{et} part {r}: ghost elements {sorted(set(gh.tolist()) ^ want)[:6]} differ from the elements owned elsewhere touching an owned node")
                     if not set(nodes.tolist()) <= set(np.asarray(gg.connect)[el].ravel().tolist()):
@@ -333,7 +402,7 @@ def _replay_gmsh():
 
 def ob_gmsh(kind, Nproc, size=2.5):
     if Nproc == "Ne":
-        Nproc = _main_groups(_meshes(kind, 1, size)[0])[0].Ne if kind != "mixed" else sum(g.Ne for g in _main_groups(_meshes(kind, 1, size)[0]))
+        Nproc = sum(g.Ne for g in _main_groups(_meshes(kind, 1, size)[0]))
     import contextlib, io
     with contextlib.redirect_stdout(io.StringIO()):
         out, glob, parts = _native_partition(kind, Nproc, size)
@@ -517,20 +586,20 @@ def build(tier, seed):
             obs.append(Ob(f"C20.algo.{name}.{Nproc}", ob_algo, (name, Nproc), "B", (f"{MSH}::Mesher.__Get_partitioned_groupElems",), bound=f"every assignment of the elements of {name} to {Nproc} ranks",
                           clause="owned elements / nodes partition; ghost == elements owned elsewhere touching an owned node; part == owned + ghost in global order; reproducible", timeout=1800))
     obs.append(Ob("C20.lemma.rows", ob_lemma_rows, (), "L", (), clause="ghost-layer postcondition => every element touching an owned node is in the part"))
-    kinds = ["TRI3", "QUAD4", "TRI6", "TRI3.hole", "mixed", "TETRA4", "HEXA8", "PRISM6"] + (["QUAD8", "TETRA10"] if thorough else [])
+    kinds = ["TRI3", "QUAD4", "TRI6", "TRI3.hole", "mixed", "QUAD8+TRI6", "TETRA4", "HEXA8", "PRISM6"] + (["QUAD8", "TETRA10"] if thorough else [])
     for kind in kinds:
         for Nproc in ([2, 3, 5, "Ne"] + ([4, 7, 11] if thorough else [])):
-            if Nproc == "Ne" and kind not in ("TRI3", "QUAD4", "mixed") and not thorough:
+            if Nproc == "Ne" and kind not in ("TRI3", "QUAD4", "mixed", "QUAD8+TRI6") and not thorough:
                 continue
             if isinstance(Nproc, int) and Nproc > 5 and kind == "HEXA8":
                 continue
             obs.append(Ob(f"C20.gmsh.{kind}.{Nproc}", ob_gmsh, (kind, Nproc), "X", (f"{MSH}::Mesher._Mesh_Get_Meshes", "EasyFEA/FEM/_group_elem.py::_GroupElem._Set_partitioned_data"),
                           bound="one gmsh mesh", clause="true partition of elements and nodes; exact ghost layer; global numbering, coordinates and tags kept; reproducible", timeout=1800))
-    for kind, physics, Nproc in [("TRI3", "elastic", 3), ("QUAD4", "thermal", 4), ("mixed", "elastic", 3), ("TETRA4", "elastic", 3), ("PRISM6", "thermal", 2), ("TRI6", "elastic", 5)] + \
+    for kind, physics, Nproc in [("TRI3", "elastic", 3), ("QUAD4", "thermal", 4), ("mixed", "elastic", 3), ("QUAD8+TRI6", "elastic", 5), ("QUAD8+TRI6", "thermal", 11), ("TETRA4", "elastic", 3), ("PRISM6", "thermal", 2), ("TRI6", "elastic", 5)] + \
             ([("HEXA8", "elastic", 3), ("TRI3.hole", "thermal", 7), ("TETRA10", "elastic", 2)] if thorough else []):
         obs.append(Ob(f"C20.rows.{physics}.{kind}.{Nproc}", ob_rows, (kind, physics, Nproc), "X", ("EasyFEA/Simulations/_simu.py::_Simu.Assembly", "EasyFEA/FEM/_mesh.py::Mesh._Get_mpi_owned_nodes"),
                       bound="one gmsh mesh", clause="K, M, C of a part == global on the owned rows; owned-row energies and reactions sum to the global ones", timeout=1800))
-    for kind, Nproc in [("TRI3", 3), ("mixed", 4), ("TETRA4", 2)]:
+    for kind, Nproc in [("TRI3", 3), ("mixed", 4), ("QUAD8+TRI6", 5), ("TETRA4", 2)]:
         obs.append(Ob(f"C20.merge.parts.{kind}.{Nproc}", ob_merge_parts, (kind, Nproc), "X", (f"{MESH}::Mesh.Merge",), bound="one gmsh mesh", clause="Merge(parts) == global mesh; mapping carries coordinates", timeout=900))
     for case in ("adjacent", "disjoint", "duplicate", "mixed-types", "nomerge", "single"):
         obs.append(Ob(f"C20.merge.{case}", ob_merge_lists, (case,), "X", (f"{MESH}::Mesh.Merge",), bound="structured rectangles", clause="mapping[i][j] carries coordinates; merged index shared iff coincident; remapped union of elements", timeout=900))
@@ -542,7 +611,8 @@ def build(tier, seed):
                      "postcondition to row-completeness. Real gmsh partitions, assembly on single parts and Mesh.Merge are checked natively (bounded)."),
         trusted_base=["stub of the gmsh model (entities / partitions / elements by type): the contract assumed of gmsh.model.mesh.partition", "z3", "scatter-add contract of the assembly (C03)"],
         assumptions=["parallel execution (mpirun, scatter, _Gather, Reduce_sum) is not available: Mesher._Mesh_Get_Meshes builds every part in one process", "exhaustive only for the listed small meshes and 2-3 ranks"],
-        functions={"__Get_partitioned_groupElems": extract.get(MSH, "Mesher.__Get_partitioned_groupElems").describe(), "Merge": extract.get(MESH, "Mesh.Merge").describe()},
+        functions={"__Get_partitioned_groupElems": extract.get(MSH, "Mesher.__Get_partitioned_groupElems").describe(), "__Get_rank_elements": extract.get(MSH, "Mesher.__Get_rank_elements").describe(),
+                   "__Get_dict_groupElems": extract.get(MSH, "Mesher.__Get_dict_groupElems").describe(), "Merge": extract.get(MESH, "Mesh.Merge").describe()},
         dropped=["D1-D3, D5; gmsh and GroupElemFactory replaced by stubs in the B obligations"],
         not_attempted=["Mesh._Gather and Sync_dofsValues need MPI_SIZE > 1"],
     )
